@@ -502,10 +502,20 @@ pub fn handle(req: &J) -> J {
                 for v in result.clone().all_values() {
                     walk_storage(&v, &mut obs, wants("key_trees"));
                 }
+                // the literal keys as the VM states themselves hold them (every SLOAD / SSTORE leaves an entry under
+                // its key), independent of how the values are exported afterwards
+                let mut state_keys: BTreeSet<String> = BTreeSet::new();
+                for st in &result.states {
+                    for key in st.storage().keys() {
+                        if let RSVD::KnownData { value } = key.data() {
+                            state_keys.insert(tree::hex_word(value));
+                        }
+                    }
+                }
                 resp.insert(
                     "storage_keys".into(),
                     json!({"nodes": obs.nodes, "key_consts": obs.key_consts, "value_consts": obs.value_consts,
-                           "literal_keys": obs.literal_keys, "key_trees": obs.key_trees}),
+                           "literal_keys": obs.literal_keys, "key_trees": obs.key_trees, "state_literal_keys": state_keys}),
                 );
             }
             if wants("sizes") {
